@@ -299,7 +299,16 @@ pub fn run(tier: Tier) -> CheckResult {
     let mut cases: Vec<Case> = vec![];
     let fillers = [RTy::prim("i32"), RTy::named("Other")];
     for (si, src) in SOURCES.iter().enumerate() {
-        let types = gen::enumerate_spines(&[RTy::named(src)], &fillers, if tier == Tier::Quick { 2 } else { 3 });
+        // thorough: depth 3 with one filler (depth 2 with both fillers is already in the quick tier)
+        let mut types = gen::enumerate_spines(&[RTy::named(src)], &fillers, 2);
+        if tier == Tier::Thorough {
+            let mut seen: std::collections::HashSet<RTy> = types.iter().cloned().collect();
+            for t in gen::enumerate_spines(&[RTy::named(src)], &fillers[..1], 3) {
+                if seen.insert(t.clone()) {
+                    types.push(t);
+                }
+            }
+        }
         for (ti, t) in types.iter().enumerate() {
             for s in SITES {
                 for zod in [false, true] {
